@@ -583,6 +583,13 @@ class FCtx(object):
             want_gen = func[0] == "generator"
             if want_gen:
                 func = func[1]
+            if func[0] == "attr" and func[1][0] == "obj" and func[1][1] in model.classes:
+                # a method of a record of a constant table, called on that record
+                oc = model.classes[func[1][1]]
+                lk = oc.lookup(func[2])
+                if lk and func[2] not in lk[0].properties and func[2] not in lk[0].staticmethods:
+                    target = FuncRef(lk[0].module, lk[0], lk[1])
+                    first = func[1]
             if func[0] == "global":
                 r = model.resolve_name(fref.module, func[1])
                 if r and r[0] == "func" and r[1].cls is None:
